@@ -191,6 +191,12 @@ def do_replay(prop: str, path: str) -> int:
         from .props import codec_aliasing
         codec_aliasing.replay(case)
         return 0
+    if prop == "C18" and case.get("kind") in ("hookfault", "object", "session"):
+        # MQTT transport: a fault plan over the documented hooks / a run of one client object / a reception session
+        print(json.dumps({k: v for k, v in case.items() if k in ("kind", "in_prefix", "plan", "transport", "aexit")}, default=str))
+        from .props import mqtt
+        mqtt.replay(case)
+        return 0
     print(json.dumps(case, indent=1, default=str)[:4000])
     print("(this engine's cases are replayed by re-running the check: the corpus and the seed reproduce them)")
     return 0
